@@ -3,3 +3,6 @@ import CmProps.C04
 import CmProps.C02
 import CmProps.C16
 import CmProps.C03
+import CmProps.C05
+import CmProps.C10
+import CmProps.C11
